@@ -23,6 +23,8 @@ pub fn run(args: &Args) -> serde_json::Value {
     let mut n_after_steps = 0;
     let mut n_lockstep = 0usize;
     let mut n_cut_below_nvars = 0;
+    let mut n_shrunk = 0usize;
+    let mut n_wf_checks = 0usize;
     for ci in 0..n_cases {
         let mut spec = random_ising(&mut rng, 5, true);
         spec.hb = false; // the trajectory clause is for the default update pipeline
@@ -37,6 +39,18 @@ pub fn run(args: &Args) -> serde_json::Value {
         let mut g = spec.build(TapeRng::new(rng.next()));
         for _ in 0..k {
             g.timestep(beta);
+        }
+        // half of the stepped samplers are cooled-then-heated: the operator count at conversion time lies well
+        // below the count that fixed the cutoff, so occupied slots exist far beyond n + n/2
+        let shrunk = k > 0 && ci % 2 == 1;
+        if shrunk {
+            for _ in 0..(2 + rng.below(4)) {
+                g.timestep(8.0);
+            }
+            for _ in 0..(1 + rng.below(2)) {
+                g.timestep(0.25);
+            }
+            n_shrunk += 1;
         }
         if k > 0 {
             n_after_steps += 1
@@ -91,20 +105,40 @@ pub fn run(args: &Args) -> serde_json::Value {
         // lock-step trajectory from the same RNG state
         let m = 6 + rng.below(8) as usize;
         let mut diverged_at: Option<usize> = None;
+        // the converted sampler must hold a consistent periodic world line right after conversion and after every call
+        let (slq, stq, _) = snapshot_qmc(&q);
+        n_wf_checks += 1;
+        if !naive_wf(&stq, &slq) {
+            oracle_failures.push(json!({"prop": "C06,C15", "what": "world line inconsistent right after conversion", "context": ctx}));
+        }
+        let lock_beta = if shrunk { 0.25 } else { beta };
+        let mut broken_at: Option<usize> = None;
         let lock = catch_unwind(AssertUnwindSafe(|| {
             let mut d = None;
+            let mut w = None;
             for s in 0..m {
-                let a = g.timestep(beta).to_vec();
-                let b = q.timestep(beta).to_vec();
+                let a = g.timestep(lock_beta).to_vec();
+                let b = q.timestep(lock_beta).to_vec();
                 if a != b && d.is_none() {
                     d = Some(s);
                 }
+                let (slq, stq, _) = snapshot_qmc(&q);
+                if w.is_none() && !naive_wf(&stq, &slq) {
+                    w = Some(s);
+                }
             }
-            d
+            (d, w)
         }));
+        n_wf_checks += m;
         match lock {
-            Ok(d) => diverged_at = d,
-            Err(_) => oracle_failures.push(json!({"what": "a sampler panicked during lock-step after conversion", "context": ctx})),
+            Ok((d, w)) => {
+                diverged_at = d;
+                broken_at = w;
+            }
+            Err(_) => oracle_failures.push(json!({"prop": "C06,C15", "what": "a sampler panicked during lock-step after conversion (debug integrity / arithmetic check)", "context": ctx})),
+        }
+        if let Some(s) = broken_at {
+            oracle_failures.push(json!({"prop": "C06,C15", "what": format!("world line of the converted sampler inconsistent after its time step {} following the conversion", s), "context": ctx}));
         }
         n_lockstep += m;
         if let Some(s) = diverged_at {
@@ -124,10 +158,17 @@ pub fn run(args: &Args) -> serde_json::Value {
                 "lockstep_steps": m, "diverged_at": diverged_at}));
         }
     }
+    for f in oracle_failures.iter_mut() {
+        if f.get("prop").is_none() {
+            f["prop"] = json!("C15");
+        }
+    }
+    // world-line failures first, so that a truncated list still shows them
+    oracle_failures.sort_by_key(|f| if f["prop"].as_str() == Some("C15") { 1 } else { 0 });
     oracle_failures.truncate(60);
     let files = crate::write_shards(&args.out, "C15", "C15", &coq, 100);
     json!({"files": files, "evaluations": coq.len(), "distinct_nontrivial": distinct.len(), "with_longitudinal_field": n_h,
-        "converted_after_steps": n_after_steps, "converted_with_cutoff_below_nvars": n_cut_below_nvars, "lockstep_steps": n_lockstep,
+        "converted_after_steps": n_after_steps, "converted_after_count_shrank": n_shrunk, "world_line_checks_after_conversion": n_wf_checks, "converted_with_cutoff_below_nvars": n_cut_below_nvars, "lockstep_steps": n_lockstep,
         "oracle_failures": oracle_failures, "samples": samples,
         "rule": "random Ising samplers (2-5 spins, multi-edges, both signs, h = 0 / +-, initial cutoffs 1..8), converted before any step or after 1..8 steps; every matrix element of every converted bond, offset, flags, carried-over state/string/cutoff compared with the model; both samplers then advanced in lock-step from the same RNG state"})
 }
